@@ -471,12 +471,20 @@ class Master(loader.Loader):
                 _LOGGER.info('Unscheduling: %s - %s', servername, app)
                 self.backend.delete(os.path.join(placement_node, app))
 
+        # Placement that was changed by this cycle is stored again even if
+        # recorded under the same server (new identity or expiry).
+        changed = {
+            app
+            for app, before, exp_before, after, exp_after in placement
+            if before != after or exp_before != exp_after
+        }
+
         for servername, server in servers.items():
             placement_node = z.path.placement(servername)
             current = stored[servername]
             correct = set(server.apps.keys())
 
-            for app in correct - current:
+            for app in (correct - current) | (correct & changed):
                 _LOGGER.info('Scheduling: %s - %s,%s',
                              servername, app, self.cell.apps[app].identity)
 
